@@ -101,7 +101,11 @@ func buildOverlay(repo string, withTests bool, tmp string) (map[string][]byte, m
 	return overlay, files, nil
 }
 
+// repoRoot: the repository the current program was loaded from (verifReadRepoFile).
+var repoRoot string
+
 func loadProgram(repo string) (*Interp, error) {
+	repoRoot = repo
 	overlay, _, err := buildOverlay(repo, false, "")
 	if err != nil {
 		return nil, err
@@ -137,7 +141,7 @@ func loadProgram(repo string) (*Interp, error) {
 	prog, spkgs := ssautil.AllPackages(pkgs, ssa.InstantiateGenerics)
 	prog.Build()
 	in := &Interp{prog: prog, fset: fset, maxValues: maxConcretize, globals: map[*ssa.Global]*Cell{}, finfo: map[*ssa.Function]*fnInfo{},
-		inited: map[*ssa.Package]bool{}, emptyStr: &StrV{}, maxSteps: 50_000_000, maxDepth: 2000, maxPreempt: 2}
+		inited: map[*ssa.Package]bool{}, emptyStr: &StrV{}, maxSteps: 500_000_000, maxDepth: 2000, maxPreempt: 2}
 	for _, p := range spkgs {
 		if p != nil {
 			in.mainPkgs = append(in.mainPkgs, p)
@@ -151,7 +155,7 @@ func (in *Interp) initAll() {
 	in.epoch = 0
 	in.maxSteps = 1 << 60
 	in.run = &harnessRun{unsupported: map[string]int{}, unwind: map[string]int{}, reach: map[string]int{}, knownHit: map[string]int{}, assertNames: map[string]int{}}
-	defer func() { in.initing = false; in.maxSteps = 50_000_000 }()
+	defer func() { in.initing = false; in.maxSteps = 500_000_000 }()
 	for _, p := range in.mainPkgs {
 		in.initPackage(p)
 	}
